@@ -2471,9 +2471,10 @@ def session_script(ctx, rng, games):
     legal = [lambda: 'isready', lambda: 'uci', lambda: 'd', lambda: 'eval', lambda: 'ucinewgame', lambda: 'cleartt', pos, pos,
              lambda: f'go depth {rng.choice([1, 2, 2, 3, 3, 4])}', lambda: f'go depth {rng.choice([1, 2, 3])}', lambda: 'go movetime 0',
              lambda: f'go movetime 0 depth {rng.choice([2, 3])}', lambda: f'Go  depth {rng.choice([1, 2])}', lambda: 'IsReady', lambda: 'ISREADY extra words',
-             lambda: 'position', lambda: 'hello', lambda: '', lambda: 'UCI', lambda: 'go depth', lambda: 'go depth x', lambda: 'go foo depth 2']
+             lambda: 'position', lambda: 'hello', lambda: '', lambda: 'UCI', lambda: 'go depth', lambda: 'go depth x', lambda: 'go foo depth 2',
+             lambda: ' isready', lambda: 'isready\t', lambda: 'EVAL', lambda: 'D', lambda: 'Position startpos', lambda: 'go depth 2 ', lambda: 'isready  ']
     # commands no GUI may send (they end the process in the engine and in the model alike): compared, not judged
-    malformed = [lambda: 'go depth 2 movestogo', lambda: 'position fen', lambda: 'position startpos moves e2e5', lambda: 'position xyz abc']
+    malformed = [lambda: 'go depth 2 movestogo', lambda: 'position fen', lambda: 'position startpos moves e2e5', lambda: 'position xyz abc', lambda: 'position  startpos', lambda: 'move e2e5']
     n = rng.choice([3, 6, 10, 16])
     use_bad = rng.random() < 0.25
     lines = [rng.choice(legal + (malformed if use_bad else []))() for _ in range(n)]
